@@ -191,6 +191,16 @@ def psd(height, dx, window=None):
     return ux, uy, psd
 
 
+def _trapezoid(y, dx, axis):
+    """Trapezoidal integration; numpy 2.0 renamed trapz to trapezoid and later removed trapz."""
+    try:
+        f = np.trapezoid
+    except AttributeError:
+        f = np.trapz
+
+    return f(y, dx=dx, axis=axis)
+
+
 def bandlimited_rms(r, psd, wllow=None, wlhigh=None, flow=None, fhigh=None):
     """Calculate the bandlimited RMS of a signal from its PSD.
 
@@ -261,10 +271,10 @@ def bandlimited_rms(r, psd, wllow=None, wlhigh=None, flow=None, fhigh=None):
     # prysm doesn't enforce the user to be "top left" or "lower left" origin,
     # abs makes sure we do things right no matter what
     dx = abs(pt2 - pt1)
-    reduced = np.trapz(work, dx=dx, axis=0)
+    reduced = _trapezoid(work, dx=dx, axis=0)
 
     if r.ndim == 2:
-        reduced = np.trapz(reduced, dx=dx, axis=0)
+        reduced = _trapezoid(reduced, dx=dx, axis=0)
 
     return np.sqrt(reduced)
 
